@@ -434,6 +434,8 @@ def build(t, tmpdir=None, data=False):
         return mem
 
     if on_disk and not t["exists"]:
+        if t.get("spelling"):   # a location that does not exist, spelled as given (possibly relative to the cwd)
+            return Path(t["spelling"]) if kind == "pathobj" else str(t["spelling"])
         return handle()
     mem = None if on_disk else MemoryStore()
     root = t["root"]
@@ -890,6 +892,13 @@ def store_variants():
             out.append((f"variant-{kind}|missing-path", target(root, attrs, fmt, kind, exists=False)))
             out.append((f"variant-{kind}|nothing-there", target(None, {}, fmt, kind)))
     out.append(("variant-storepath|nothing-there", target(None, {}, 3, "storepath")))
+    # a location that does not exist is FileNotFoundError however it is spelled: relative, with a colon in
+    # the first component (not one of the remote schemes), with spaces / non-ASCII, a drive-letter look-alike
+    for kind in ("path", "pathobj"):
+        for sp in ("verif-absent:1/none.zarr", "verif-absent/a:b.zarr", "s3:verif-absent/none.zarr", "gs:verif-absent",
+                   "file:verif-absent.zarr", "C:verif-absent.zarr", "./verif absent/ü.zarr", "verif-absent.geff",
+                   "~verif-absent/none.zarr", "verif-absent/../verif-absent-2.zarr"):
+            out.append((f"variant-{kind}|missing-path|{sp}", target(root, attrs, 2, kind, exists=False, spelling=sp)))
     # big-endian node ids against little-endian edge ids (same dtype class -> conformant)
     for bname in ("typical", "empty-graph", "empty-groups"):
         root, attrs = bs[bname]
@@ -943,6 +952,34 @@ def paired_id_faults():
         for lab, fn in (("delete", lambda r, p: set_path(r, p, None)), ("array->group", lambda r, p: set_path(r, p, G()))):
             r = fn(fn(root, ("nodes", "ids")), ("edges", "ids"))
             out.append((f"paired-ids|{bname}|both-{lab}", target(r, attrs, 2)))
+    return out
+
+
+def paired_prop_length_faults():
+    """the three length requirements of a masked property (values vs ids, missing vs ids, hence values vs
+    missing) are correlated: `values` and `missing` of one property changed TOGETHER to the same wrong
+    first extent (and, for var-length properties, the offset table with its mask) — every single check
+    that compares the two with each other instead of with the id count still passes (seeded C04-16)"""
+    out = []
+    for bname, (root, attrs) in bases().items():
+        for side in ("nodes", "edges"):
+            ids = get_path(root, [side, "ids"])
+            props = get_path(root, [side, "props"])
+            if not (is_array(ids) and is_group(props)):
+                continue
+            n = ids["a"][1][0] if ids["a"][1] else 0
+            for name, grp in props["g"]:
+                v, m = child(grp, "values"), child(grp, "missing")
+                if not (is_array(v) and is_array(m)) or not v["a"][1] or not m["a"][1]:
+                    continue
+                for lab, k in (("len-1", n - 1), ("len+1", n + 1), ("len-2", n - 2), ("zero", 0), ("double", 2 * n)):
+                    if k < 0 or k == n:
+                        continue
+                    r = set_path(root, (side, "props", name, "values"), A(v["a"][0], [k] + v["a"][1][1:]))
+                    r = set_path(r, (side, "props", name, "missing"), A(m["a"][0], [k] + m["a"][1][1:]))
+                    for fmt in (2, 3):
+                        out.append((f"paired-prop-len|{bname}|{side}|{name}|both-{lab}",
+                                    target(r, attrs, fmt, strenc=("fixed" if fmt == 2 else "vlen"))))
     return out
 
 
@@ -1074,7 +1111,9 @@ def run(ck: common.Check):
     ck.extra["store_variants"] = len(sv)
     pf = paired_id_faults()
     bo = byte_order_variants()
-    cases += pf + bo
+    pl = paired_prop_length_faults()
+    cases += pf + bo + pl
+    ck.extra["paired_prop_length_faults"] = len(pl)
     ck.extra["paired_id_faults"] = len(pf)
     ck.extra["byte_order_variants"] = len(bo)
     cd = corrupt_documents()
